@@ -1,6 +1,7 @@
 """C11 — Wait returns only when ready; a timed-out wait leaves the futures intact (DESIGN.md §3 C11)."""
 import os
 
+from vlib import apiprobe
 from vlib import common as C
 from vlib import conc
 from vlib import memsearch
@@ -33,6 +34,7 @@ def run(res, tier):
         'condition-variable internals (wait queues) are the fiber scheduler\'s (C18); the model has the mutex and the flag',
         'visibility of the result after Wait returns (happens-before) is C04; here: interleaving level',
     ]
+    apiprobe.stage(res, 'C11', tier)  # every public form of the area still instantiates (vlib/apiprobe.py, harness/api_probe_*.cpp)
     conc.concurrent_check(
         res, 'C11', tier, 'c11.cpp', 'wait', RULES,
         quick_args=['--mode', 'dfs', '--pb', '2', '--wb', '1', '--max-exec', '30000'],
@@ -64,5 +66,8 @@ def run(res, tier):
 
 
 def replay(path):
+    r = apiprobe.replay(path)
+    if r is not None:
+        return r
     r = memsearch.replay(path)
     return conc.replay('C11', path) if r is None else r
